@@ -141,6 +141,27 @@ fn check(case: &str) -> Option<String> {
             if lexpr::to_vec(&v).unwrap() != lexpr::to_string(&v).unwrap().into_bytes() { return Some("to_vec / to_string disagree".into()); }
             if format!("{}", v) != lexpr::to_string(&v).unwrap() { return Some("Display / to_string disagree".into()); }
             if std::str::from_utf8(&lexpr::to_vec(&v).unwrap()).is_err() { return Some("to_vec output is not UTF-8".into()); }
+            // the serde companion crate prints through the same printer: its writer entry points against short-writing and failing sinks
+            #[cfg(feature = "with-serde")]
+            {
+                let v = (vec![("a\u{e9}".to_string(), 1u32), ("b".to_string(), 20000)], Some(1.5f64), "text with \"quotes\"".to_string(), v.to_string(), vec![0u8, 200]);
+                let want = serde_lexpr::to_string(&v).ok()?.into_bytes();
+                if want != lexpr::to_string(&serde_lexpr::to_value(&v).ok()?).unwrap().into_bytes() { return Some("serde_lexpr::to_string differs from printing serde_lexpr::to_value".into()); }
+                for k in [1usize, 3, usize::MAX] {
+                    let mut s = Sink { out: vec![], per_call: k, fail_at: None, fail_call: None, calls: 0, zero_call: None };
+                    if serde_lexpr::to_writer(&mut s, &v).is_err() || s.out != want { return Some(format!("serde_lexpr::to_writer into a sink accepting {} bytes per call delivered {:?}, the text is {:?}", k, String::from_utf8_lossy(&s.out), String::from_utf8_lossy(&want))); }
+                }
+                for at in 0..want.len() {
+                    let mut s = Sink { out: vec![], per_call: usize::MAX, fail_at: Some(at), fail_call: None, calls: 0, zero_call: None };
+                    let r = serde_lexpr::to_writer(&mut s, &v);
+                    if r.is_ok() { return Some(format!("serde_lexpr::to_writer returns Ok although the sink failed after {} of {} bytes", at, want.len())); }
+                    if !want.starts_with(&s.out) { return Some(format!("serde_lexpr::to_writer into a sink failing after {} bytes: delivered {:?} is not a prefix of the text", at, String::from_utf8_lossy(&s.out))); }
+                }
+                let mut s = Sink { out: vec![], per_call: usize::MAX, fail_at: None, fail_call: None, calls: 0, zero_call: Some(1) };
+                if serde_lexpr::to_writer(&mut s, &v).is_ok() { return Some("serde_lexpr::to_writer returns Ok although the sink stopped accepting bytes".into()); }
+                let mut small = [0u8; 2];
+                if want.len() > 2 && serde_lexpr::to_writer(&mut small[..], &v).is_ok() { return Some("serde_lexpr::to_writer into a 2-byte buffer returns Ok".into()); }
+            }
             None
         }
         _ => None,
